@@ -1,13 +1,20 @@
 #!/usr/bin/env python3
 """Applies every confirmed seed under /verif/seeded/*/patch.diff to /repo (one at a time, reverted afterwards),
-runs all checks and records which properties report a violation. Writes seeded/MATRIX.md and updates meta.json."""
-import json, os, subprocess, sys, glob
+runs all checks and records which properties report a violation; then does the same with every
+behaviour-preserving refactoring under /verif/refactors/*/refactor-*.diff, where ANY violation is a false alarm.
+Writes seeded/MATRIX.md and updates each seed's meta.json.
+usage: seed_matrix.py [seed-id ...] [--no-refactors]"""
+import json, os, subprocess, sys, glob, re
 V='/verif'
 os.makedirs('/tmp/tryseed-out', exist_ok=True)
 subprocess.run(['cp', f'{V}/known_findings.json', '/tmp/tryseed-out/'])
+args=[a for a in sys.argv[1:] if not a.startswith('--')]
+only=set(args)
+do_ref='--no-refactors' not in sys.argv and not only
 rows=[]
-only=set(sys.argv[1:])
-for d in sorted(glob.glob(f'{V}/seeded/*/')):
+def natkey(s):
+    return [int(t) if t.isdigit() else t for t in re.split(r'(\d+)', s)]
+for d in sorted(glob.glob(f'{V}/seeded/*/'), key=natkey):
     sid=os.path.basename(d.rstrip('/'))
     if only and sid not in only: continue
     p=os.path.join(d,'patch.diff')
@@ -20,12 +27,29 @@ for d in sorted(glob.glob(f'{V}/seeded/*/')):
     meta['detected_by']=props
     meta['rules_fired']=rules
     meta['first_report']=fails[0][:300] if fails else ''
-    if 'does not apply' in out: meta['detected_by']=['PATCH-DOES-NOT-APPLY']
+    if 'does not apply' in out or 'refusing' in out: meta['detected_by']=['PATCH-DOES-NOT-APPLY']
     json.dump(meta,open(os.path.join(d,'meta.json'),'w'),indent=1)
-    rows.append((sid,meta['property'],props,rules))
-    print(sid,meta['property'],props,rules,flush=True)
+    rows.append((sid,meta['property'],meta['detected_by'],rules))
+    print(sid,meta['property'],meta['detected_by'],rules,flush=True)
+ref_rows=[]
+if do_ref:
+    for p in sorted(glob.glob(f'{V}/refactors/*/refactor-*.diff'), key=natkey):
+        name='/'.join(p.split('/')[-2:])
+        out=subprocess.run([f'{V}/tools/try_seed.sh', p], capture_output=True, text=True).stdout
+        props=sorted({l.split('property=')[1].split()[0] for l in out.splitlines() if l.startswith('VIOLATION')})
+        if 'does not apply' in out or 'refusing' in out: props=['PATCH-DOES-NOT-APPLY']
+        ref_rows.append((name,props))
+        print('REFACTOR',name,props,flush=True)
 if not only:
     with open(f'{V}/seeded/MATRIX.md','w') as f:
-        f.write('# Seeded defects vs checks\n\nEach row: a sub-agent-written defect (confirmed: builds, suite green, demo fails with / passes without), the property it was written against, and the checks that report it when the patch is applied to /repo.\n\n| seed | target | detected by | rules |\n|---|---|---|---|\n')
+        f.write('# Seeded defects vs checks\n\nEach row: a sub-agent-written defect (confirmed: builds, suite green, demo fails with / passes without), the property it was written against, and the checks that report it when the patch is applied to /repo. Seeds named -2 come from a second round in which the agent was told which site the first round had used.\n\n| seed | target | detected by | rules |\n|---|---|---|---|\n')
         for sid,prop,props,rules in rows:
             f.write(f"| {sid} | {prop} | {', '.join(props) or '**missed**'} | {', '.join(rules)} |\n")
+        det=sum(1 for r in rows if r[2] and r[2]!=['PATCH-DOES-NOT-APPLY'])
+        f.write(f"\n{det} of {len(rows)} seeds are reported.\n")
+        if ref_rows:
+            f.write('\n# Behaviour-preserving refactorings (must stay silent)\n\nWritten by sub-agents asked for clean-ups that change no behaviour (extract/inline helper, rename, if-chain ↔ switch, early returns, reorder independent statements, defer ↔ explicit unlock, stdlib replacements, move to another file). Any violation here is a false alarm.\n\n| refactoring | alarms |\n|---|---|\n')
+            for name,props in ref_rows:
+                f.write(f"| {name} | {', '.join(props) or 'none'} |\n")
+            bad=sum(1 for r in ref_rows if r[1])
+            f.write(f"\n{len(ref_rows)-bad} of {len(ref_rows)} refactorings raise no alarm.\n")
